@@ -50,6 +50,8 @@ pub struct Listener {
 pub struct LineRecord {
     pub seq: u64,
     pub at: u64,
+    /// when the receiver can read it (write time + link latency)
+    pub deliver_at: u64,
     pub from: Option<u32>,
     pub to: Option<u32>,
     pub from_label: String,
@@ -249,6 +251,7 @@ impl Net {
                 log.push(LineRecord {
                     seq: self.line_seq,
                     at: now,
+                    deliver_at: at,
                     from,
                     to,
                     from_label: fl.clone(),
